@@ -104,6 +104,10 @@ type Options struct {
 	// sldMasterIdLst); only presentation.xml, its rels and the slides remain.
 	Minimal    bool `json:"minimal,omitempty"`
 	NoDocProps bool `json:"no_doc_props,omitempty"`
+	// MasterText is the prompt text of the title placeholders of the slide
+	// master and the slide layout ("" = "Click to edit Master title style", what
+	// PowerPoint writes). It is not slide content.
+	MasterText string `json:"master_text,omitempty"`
 	// Extra members are appended verbatim.
 	Extra []zipw.Member `json:"extra,omitempty"`
 }
@@ -128,6 +132,13 @@ const (
 	xmlDecl = `<?xml version="1.0" encoding="UTF-8" standalone="yes"?>` + "\n"
 	nsDecl  = ` xmlns:a="` + nsA + `" xmlns:r="` + nsR + `" xmlns:p="` + nsP + `"`
 )
+
+func (d Deck) masterText() string {
+	if d.Opt.MasterText != "" {
+		return d.Opt.MasterText
+	}
+	return "Click to edit Master title style"
+}
 
 // PartName of slide i (0-based presentation order).
 func (d Deck) PartName(i int) string {
@@ -592,9 +603,9 @@ func (d Deck) Members() ([]zipw.Member, error) {
 	if !d.Opt.Minimal {
 		// Master and layout carry the prompt texts PowerPoint puts there; they
 		// are not slide content.
-		add("ppt/slideMasters/slideMaster1.xml", []byte(xmlDecl+`<p:sldMaster`+nsDecl+`><p:cSld><p:spTree><p:nvGrpSpPr><p:cNvPr id="1" name=""/><p:cNvGrpSpPr/><p:nvPr/></p:nvGrpSpPr><p:grpSpPr/><p:sp><p:nvSpPr><p:cNvPr id="2" name="Title Placeholder 1"/><p:cNvSpPr><a:spLocks noGrp="1"/></p:cNvSpPr><p:nvPr><p:ph type="title"/></p:nvPr></p:nvSpPr><p:spPr/><p:txBody><a:bodyPr/><a:lstStyle/><a:p><a:r><a:rPr lang="en-US"/><a:t>Click to edit Master title style</a:t></a:r></a:p></p:txBody></p:sp></p:spTree></p:cSld><p:clrMap bg1="lt1" tx1="dk1" bg2="lt2" tx2="dk2" accent1="accent1" accent2="accent2" accent3="accent3" accent4="accent4" accent5="accent5" accent6="accent6" hlink="hlink" folHlink="folHlink"/><p:sldLayoutIdLst><p:sldLayoutId id="2147483649" r:id="rId1"/></p:sldLayoutIdLst></p:sldMaster>`), ctBase+"slideMaster+xml")
+		add("ppt/slideMasters/slideMaster1.xml", []byte(xmlDecl+`<p:sldMaster`+nsDecl+`><p:cSld><p:spTree><p:nvGrpSpPr><p:cNvPr id="1" name=""/><p:cNvGrpSpPr/><p:nvPr/></p:nvGrpSpPr><p:grpSpPr/><p:sp><p:nvSpPr><p:cNvPr id="2" name="Title Placeholder 1"/><p:cNvSpPr><a:spLocks noGrp="1"/></p:cNvSpPr><p:nvPr><p:ph type="title"/></p:nvPr></p:nvSpPr><p:spPr/><p:txBody><a:bodyPr/><a:lstStyle/><a:p><a:r><a:rPr lang="en-US"/><a:t>`+esc(d.masterText())+`</a:t></a:r></a:p></p:txBody></p:sp></p:spTree></p:cSld><p:clrMap bg1="lt1" tx1="dk1" bg2="lt2" tx2="dk2" accent1="accent1" accent2="accent2" accent3="accent3" accent4="accent4" accent5="accent5" accent6="accent6" hlink="hlink" folHlink="folHlink"/><p:sldLayoutIdLst><p:sldLayoutId id="2147483649" r:id="rId1"/></p:sldLayoutIdLst></p:sldMaster>`), ctBase+"slideMaster+xml")
 		add("ppt/slideMasters/_rels/slideMaster1.xml.rels", relsXML([]rel{{"rId1", relBase + "slideLayout", "../slideLayouts/slideLayout1.xml"}, {"rId2", relBase + "theme", "../theme/theme1.xml"}}), "")
-		add("ppt/slideLayouts/slideLayout1.xml", []byte(xmlDecl+`<p:sldLayout`+nsDecl+` type="obj"><p:cSld name="Title and Content"><p:spTree><p:nvGrpSpPr><p:cNvPr id="1" name=""/><p:cNvGrpSpPr/><p:nvPr/></p:nvGrpSpPr><p:grpSpPr/><p:sp><p:nvSpPr><p:cNvPr id="2" name="Title 1"/><p:cNvSpPr><a:spLocks noGrp="1"/></p:cNvSpPr><p:nvPr><p:ph type="title"/></p:nvPr></p:nvSpPr><p:spPr/><p:txBody><a:bodyPr/><a:lstStyle/><a:p><a:r><a:rPr lang="en-US"/><a:t>Click to edit Master title style</a:t></a:r></a:p></p:txBody></p:sp></p:spTree></p:cSld><p:clrMapOvr><a:masterClrMapping/></p:clrMapOvr></p:sldLayout>`), ctBase+"slideLayout+xml")
+		add("ppt/slideLayouts/slideLayout1.xml", []byte(xmlDecl+`<p:sldLayout`+nsDecl+` type="obj"><p:cSld name="Title and Content"><p:spTree><p:nvGrpSpPr><p:cNvPr id="1" name=""/><p:cNvGrpSpPr/><p:nvPr/></p:nvGrpSpPr><p:grpSpPr/><p:sp><p:nvSpPr><p:cNvPr id="2" name="Title 1"/><p:cNvSpPr><a:spLocks noGrp="1"/></p:cNvSpPr><p:nvPr><p:ph type="title"/></p:nvPr></p:nvSpPr><p:spPr/><p:txBody><a:bodyPr/><a:lstStyle/><a:p><a:r><a:rPr lang="en-US"/><a:t>`+esc(d.masterText())+`</a:t></a:r></a:p></p:txBody></p:sp></p:spTree></p:cSld><p:clrMapOvr><a:masterClrMapping/></p:clrMapOvr></p:sldLayout>`), ctBase+"slideLayout+xml")
 		add("ppt/slideLayouts/_rels/slideLayout1.xml.rels", relsXML([]rel{{"rId1", relBase + "slideMaster", "../slideMasters/slideMaster1.xml"}}), "")
 		add("ppt/theme/theme1.xml", []byte(xmlDecl+`<a:theme xmlns:a="`+nsA+`" name="Office Theme"><a:themeElements/></a:theme>`), "application/vnd.openxmlformats-officedocument.theme+xml")
 	}
